@@ -7,6 +7,7 @@ func init() {
 	vfHarnesses["C20_binary_on_empties"] = vfhC20BinaryOnEmpties
 	vfHarnesses["C20_transparency"] = vfhC20Transparency
 	vfHarnesses["C20_zero_values"] = vfhC20ZeroValues
+	vfHarnesses["C20_measure_transparency"] = vfhC20MeasureTransparency
 }
 
 const vfNumEmpties = 13
@@ -159,5 +160,41 @@ func vfhC20ZeroValues() {
 	vfAssert(ls.StartPoint().IsEmpty() && ls.EndPoint().IsEmpty() && !ls.IsClosed() && ls.IsSimple(), "zero LineString accessors")
 	vfAssert(poly.ExteriorRing().IsEmpty() && poly.NumInteriorRings() == 0 && poly.Boundary().IsEmpty(), "zero Polygon accessors")
 	vfAssert(mp.NumPoints() == 0 && mls.NumLineStrings() == 0 && mpo.NumPolygons() == 0 && gc.NumGeometries() == 0, "zero counts")
+	vfReach("end")
+}
+
+// Adding an empty member of any kind at any position does not change Area,
+// Centroid, Length or Envelope of a collection of two lattice triangles (or of
+// two lines, or of two points).
+func vfhC20MeasureTransparency() {
+	e := vfEmpty(vfInt("kind", 0, vfNumEmpties-1), DimXY)
+	t := vfPt("t")
+	var m1, m2 Geometry
+	switch vfInt("dim", 0, 2) {
+	case 0:
+		m1, m2 = vfPointXY(XY{0, 0}).AsGeometry(), vfPointXY(t).AsGeometry()
+	case 1:
+		m1, m2 = vfLineXY(XY{0, 0}, XY{3, 4}).AsGeometry(), vfLineXY(t, XY{t.X + 6, t.Y + 8}).AsGeometry()
+	default:
+		m1 = vfTriangle(XY{0, 0}, XY{1, 0}, XY{0, 1}).AsGeometry()
+		m2 = vfTriangle(t, XY{t.X + 4, t.Y}, XY{t.X, t.Y + 4}).AsGeometry()
+	}
+	plain := NewGeometryCollection([]Geometry{m1, m2}).AsGeometry()
+	var with Geometry
+	switch vfInt("pos", 0, 2) {
+	case 0:
+		with = NewGeometryCollection([]Geometry{e, m1, m2}).AsGeometry()
+	case 1:
+		with = NewGeometryCollection([]Geometry{m1, e, m2}).AsGeometry()
+	default:
+		with = NewGeometryCollection([]Geometry{m1, m2, e}).AsGeometry()
+	}
+	vfAssert(with.Area() == plain.Area(), "Area unchanged by an empty member")
+	vfAssert(with.Length() == plain.Length(), "Length unchanged by an empty member")
+	vfAssert(with.Envelope() == plain.Envelope(), "Envelope unchanged by an empty member")
+	c1, ok1 := with.Centroid().XY()
+	c2, ok2 := plain.Centroid().XY()
+	vfAssert(ok1 && ok2, "centroids are non-empty")
+	vfAssert(vfAnd(c1.X == c2.X, c1.Y == c2.Y), "Centroid unchanged by an empty member")
 	vfReach("end")
 }
